@@ -50,18 +50,41 @@ def rule_R1c(ctx, rep, config="c-lib"):
         if _allowed(fld):
             rep.ok("R1c", key, "frozen list", nontrivial=False, sample={"field": fld, "class": "intended persistent state"})
             continue
-        # (ii) save / restore inside one function
-        funcs = set(f.name for f, _ in sts)
-        if len(funcs) == 1:
-            f = sts[0][0]
-            stores = [s for _, s in sts]
+        # (ii) save / restore: every function that stores the field either saves and restores it itself
+        #      on all normal paths, or restores -- in a setjmp handler -- a value saved before the setjmp
+        from .r3 import armed_info
+        by_fn = {}
+        for (f, s_) in sts:
+            by_fn.setdefault(f.name, (f, []))[1].append(s_)
+        kinds = {}
+        for fname, (f, stores) in by_fn.items():
             loads = [i for i in f.all_insts() if i.op == "load" and resolve_addr(f, i.ops[0]).last_field() == fld]
-            saved = [l for l in loads if all(f.inst_dominates(l, s) for s in stores)]
-            restored = [s for s in stores if any(strip_casts(f, s.ops[0]) == {"k": "i", "v": l.id} for l in saved)
-                        and all(f.inst_postdominates(s, o) for o in stores if o is not s)]
-            if saved and restored:
-                rep.ok("R1c", key, sample={"field": fld, "class": "saved and restored in " + f.name, "save": saved[0].where(), "restore": restored[0].where()})
+            saved = [l for l in loads if all(f.inst_dominates(l, s_) for s_ in stores)]
+            restored = [s_ for s_ in stores if any(strip_casts(f, s_.ops[0]) == {"k": "i", "v": l.id} for l in saved)
+                        and all(f.inst_postdominates(s_, o) for o in stores if o is not s_)]
+            if saved and restored and len(stores) > 1:
+                kinds[fname] = ("self", saved[0], restored[0])
                 continue
+            hk = None
+            for (sj, h, nn) in armed_info(p, f):
+                if all(f.dominates(h, s_.block.name) for s_ in stores):
+                    pre = [l for l in loads if f.inst_dominates(l, sj)]
+                    if all(any(strip_casts(f, s_.ops[0]) == {"k": "i", "v": l.id} for l in pre) for s_ in stores):
+                        hk = ("handler", pre[0] if pre else None, stores[0])
+            if hk:
+                kinds[fname] = hk
+        if len(kinds) == len(by_fn) and any(k[0] == "self" for k in kinds.values()):
+            # the error exit of the API function restores it too
+            hres = [k for k in kinds.values() if k[0] == "handler"]
+            if hres:
+                rep.ok("R1c", key, sample={"field": fld, "class": "saved and restored (also by the error exit)",
+                                           "functions": dict((fn, k[0]) for fn, k in kinds.items())})
+            else:
+                selff = [fn for fn, k in kinds.items() if k[0] == "self"][0]
+                rep.violation("R1c", key, "`%s' is changed temporarily by %s and restored only on its normal path: when the parse fails in between (longjmp to the error "
+                                          "exit of yaep_parse) the object keeps the changed setting" % (fld, selff), where=kinds[selff][2].where(),
+                              witness=[kinds[selff][1].where(), kinds[selff][2].where()])
+            continue
         # (i) re-initialised at parse start
         ok = False
         why = "no store of a constant to it inside a loop over all objects"
